@@ -26,13 +26,14 @@ import (
 )
 
 func init() {
-	evid.Register(&evid.Check{ID: "C17", Level: "exploration", Run: run, QuickBudget: 150 * time.Second, ThoroughBudget: 14 * time.Minute})
+	evid.Register(&evid.Check{ID: "C17", Level: "exploration", Run: run, QuickBudget: 360 * time.Second, ThoroughBudget: 30 * time.Minute})
 }
 
 func run(r *evid.Run) {
 	r.Rule("A: one case = (labelled import DAG, directory per file, WKT/option flag per file, target subset, strategy, include_imports, include_wkt[, type filter]); " +
 		"distinct non-trivial = distinct such tuples whose image contains at least one import or WKT. " +
 		"B/C: one case = (out configuration, probe file name, entry kind, content); distinct = (configuration, kind, structural class of the name, outcome stage). " +
+		"C requests: one case = (module, target subset, ordered list of 2-4 plugin configs - pairs with different grouping keys and groups of plugins that share the key (strategy, type filters) but differ in include_imports/include_wkt/opt/out - , command-line override). " +
 		"All spaces are enumerated completely, nothing is sampled.")
 	r.Assume("the protoc plugin itself is trusted to be any program: only what buf sends to it and what buf does with its response is judged")
 	r.Assume("out locations are plain directories or .zip/.jar files below one base directory; symlinked or case-folded spellings of one directory are out of scope")
